@@ -582,14 +582,17 @@ def gen_union_node(rng, params, prows):
     return None
 
 
-def gen_prod_node(rng, params, dependent):
-    """primitive(x or y; may depend on s) x interval(s).  s ranges inside [0, 1] like every parameter, so that the
-    generator's positive radii / widths stay positive on the whole interval"""
-    lb = dy(rng, 0, 0.5)
-    b = Node("interval", "s", [PF([geomgen.c(lb)]), PF([geomgen.c(lb + dy(rng, 0.25, 0.5))])])
-    ga = Gen(rng, params=params + (["s"] if dependent else []), p_dep=0.9 if dependent else 0.3)
-    for _ in range(40):
-        kind = rng.choice(["circle", "circle", "interval", "par", "tri"])
+def gen_prod_node(rng, params, flavour, min_ratio=Fr(3, 2)):
+    """primitive(x or y) x interval(s).  flavour: "const" (independent factors), "moved" (the first factor's position
+    depends on s, its volume does not), "voldep" (the fibre volume varies by a factor >= 1.5 over the interval, so the
+    volume-weighted acceptance matters).  s ranges inside [0, 1] like every parameter, so that the generator's
+    positive radii / widths stay positive on the whole interval"""
+    for _ in range(600):
+        lb = dy(rng, 0, 0.5)
+        b = Node("interval", "s", [PF([geomgen.c(lb)]), PF([geomgen.c(lb + dy(rng, 0.25, 0.5))])])
+        dependent = flavour != "const"
+        ga = Gen(rng, params=params + (["s"] if dependent else []), p_dep=0.9 if dependent else 0.3)
+        kind = rng.choice(["circle", "interval"]) if flavour == "voldep" else rng.choice(["circle", "circle", "interval", "par", "tri"])
         if kind == "interval":
             a = ga.prim1("y")
         else:
@@ -598,6 +601,14 @@ def gen_prod_node(rng, params, dependent):
                 continue
         if dependent and "s" not in a.free_vars():
             continue
+        if dependent:
+            env = {p: [Fr(1, 2)] for p in params}
+            coef = fibre_volume_poly(a, env, "s")
+            (l,), (u,) = b.pfs[0].eval(env), b.pfs[1].eval(env)
+            v0, v1 = poly_int(coef, l, l + (u - l) / 4), poly_int(coef, u - (u - l) / 4, u)
+            varies = max(v0, v1) >= min_ratio * min(v0, v1)
+            if (flavour == "voldep") != varies:
+                continue
         return Node("prod", None, [], [a, b])
     return None
 
@@ -659,7 +670,7 @@ def make_cases(ctx):
 
     NBIG = ctx.scale(100000, 200000)
     # 1. tape correspondence (small n, all primitives and boundaries, parameter rows)
-    for _ in range(ctx.scale(120, 1500)):
+    for _ in range(ctx.scale(300, 3000)):
         params, prows = pr()
         g = Gen(rng, params=params)
         var = rng.choice(["x", "x", "x", "y", "z"])
@@ -668,28 +679,28 @@ def make_cases(ctx):
             node = Node(rng.choice(["bdry", "bdry", "bdry", "bdryL", "bdryR"]) if var == "y" else "bdry", None, [], [node])
         add("tape", node, params, prows, n=rng.choice([1, 2, 3, 7, 40]))
     # 2. laws of primitives / boundaries / moved ones: natural partitions
-    for _ in range(ctx.scale(26, 300)):
+    for _ in range(ctx.scale(60, 600)):
         params, prows = pr()
         node = gen_law_node(rng, params)
         add("law", node, params, prows[:2] if ctx.quick else prows, N=NBIG,
             api=rng.choice(["dom.n", "dom.n", "smp.n", "dom.d"]) if len(prows) <= 1 else rng.choice(["dom.n", "smp.n"]))
     # 3. CSG expressions: Shapely cell measures
-    for _ in range(ctx.scale(10, 120)):
+    for _ in range(ctx.scale(24, 240)):
         params, prows = pr()
         prows = prows[:2]
         node = gen_csg_node(rng, params, prows, rng.choice([2, 2, 3]) if ctx.quick else rng.choice([2, 3, 3, 4]))
         if node is not None:
-            add("csg", node, params, prows, N=ctx.scale(60000, 120000),
+            add("csg", node, params, prows, N=ctx.scale(60000, 120000), n_small=rng.choice([2, 3, 7, 40]),
                 api=rng.choice(["dom.n", "smp.n", "dom.d"]) if len(prows) <= 1 else rng.choice(["dom.n", "smp.n"]))
     # 4. overlapping unions: as-coded mixture law, choice correspondence (known finding: not uniform)
-    for _ in range(ctx.scale(4, 40)):
+    for _ in range(ctx.scale(8, 80)):
         params, prows = pr()
         prows = prows[:2]
         node = gen_union_node(rng, params, prows)
         if node is not None:
             add("union", node, params, prows, N=NBIG, n_small=rng.choice([2, 7, 40]))
     # 4b. disjoint unions (flagged or not): must be uniform
-    for _ in range(ctx.scale(4, 40)):
+    for _ in range(ctx.scale(8, 80)):
         params, prows = pr()
         prows = prows[:2]
         node = None
@@ -706,42 +717,41 @@ def make_cases(ctx):
         if node is not None:
             add("union", node, params, prows, N=NBIG, n_small=rng.choice([2, 7, 40]))
     # 5. products: independent and dependent (volume-weighted acceptance)
-    for _ in range(ctx.scale(8, 80)):
+    for i in range(ctx.scale(16, 160)):
         params = rng.choice([[], [], ["t"]])
         prows = gen_prows(rng, params, 1 if params else 0)
-        dep = rng.random() < 0.7
-        node = gen_prod_node(rng, params, dep)
+        flavour = ["voldep", "voldep", "moved", "const"][i % 4]
+        node = gen_prod_node(rng, params, flavour)
         if node is not None:
-            add("prod", node, params, prows, N=ctx.scale(60000, 120000), dependent=dep, n_small=rng.choice([5, 17, 40]))
+            add("prod", node, params, prows, N=ctx.scale(60000, 120000), dependent=flavour != "const", flavour=flavour,
+                n_small=rng.choice([5, 17, 40]))
     # 5b. dependent products sampled one point per call (known finding: acceptance step skipped)
-    for _ in range(ctx.scale(2, 12)):
-        node = None
-        for _try in range(40):
-            cand = gen_prod_node(rng, [], True)
-            if cand is not None and cand.kids[0].kind in ("circle", "interval"):
-                coef = fibre_volume_poly(cand.kids[0], {}, "s")
-                (l,), (u,) = cand.kids[1].pfs[0].eval({}), cand.kids[1].pfs[1].eval({})
-                v0, v1 = poly_int(coef, l, l + (u - l) / 4), poly_int(coef, u - (u - l) / 4, u)
-                if max(v0, v1) > Fr(3, 2) * min(v0, v1):
-                    node = cand
-                    break
-        if node is not None:
-            add("prod1", node, [], [], calls=ctx.scale(2500, 6000))
+    for _ in range(ctx.scale(3, 30)):
+        # fibre volume varies by a factor >= 4 over the interval: disc of radius 1/4 + a s or interval of that width
+        a_ = rng.choice([Fr(3, 4), Fr(1)])
+        grow = ("+", geomgen.c(Fr(1, 4)), ("*", geomgen.c(a_), geomgen.v("s")))
+        b = Node("interval", "s", [PF([geomgen.c(0)]), PF([geomgen.c(rng.choice([Fr(1, 2), Fr(3, 4), Fr(1)]))])])
+        if rng.random() < 0.5:
+            a = Node("circle", "x", [PF([geomgen.c(dy(rng, -1, 1)), geomgen.c(dy(rng, -1, 1))]), PF([grow])])
+        else:
+            lo = geomgen.c(dy(rng, -1, 1))
+            a = Node("interval", "y", [PF([lo]), PF([("+", lo, grow)])])
+        add("prod1", Node("prod", None, [], [a, b]), [], [], calls=ctx.scale(2500, 6000))
     # 6. LHS designs in boxes
-    for _ in range(ctx.scale(30, 400)):
+    for _ in range(ctx.scale(80, 800)):
         params, prows = pr()
         add("lhs", box_node(rng, params), params, prows, n=rng.choice([1, 2, 3, 5, 8, 16, 50]))
     # 7. Gaussian sampler on boxes
-    for _ in range(ctx.scale(6, 60)):
+    for _ in range(ctx.scale(12, 120)):
         params, prows = pr()
-        prows = prows[:2]
+        prows = prows[:1]        # mean and deviation are chosen relative to the box of the (single) parameter row
         node = box_node(rng, params)
         if node.kind == "prod":
             continue
-        add("gauss", node, params, prows, N=ctx.scale(60000, 120000), n_small=rng.choice([3, 7, 40]),
-            std_factor=float(rng.choice([Fr(3, 8), Fr(3, 4), Fr(3, 2)])), off=[float(dy(rng, -1, 1)) for _ in range(2)])
+        add("gauss", node, params, prows, N=ctx.scale(40000, 100000), n_small=rng.choice([3, 7, 40]),
+            std_factor=float(rng.choice([Fr(3, 8), Fr(3, 4), Fr(1)])), off=[float(dy(rng, -0.75, 0.75)) for _ in range(2)])
     # 8. interval grids
-    for _ in range(ctx.scale(25, 300)):
+    for _ in range(ctx.scale(60, 600)):
         params, prows = pr()
         g = Gen(rng, params=params)
         add("grid", g.prim1("y"), params, prows[:1], n=rng.choice([1, 2, 3, 4, 7, 12, 40, 100, 257]), m=rng.choice([2, 3, 4, 5, 8, 16]))
@@ -947,6 +957,73 @@ def run_csg(tp, rep, case):
             fail_law(rep, case, f"the sample is not uniform: {w['cell']} received {w['observed']} of {v['N']} points, its share of the measure gives "
                      f"{w['expected']} (chi-square {v['stat']} > {v['bound']}, df {v['df']})", row_env_json(case, i), v,
                      extra=dict(counts=counts, probabilities=probs, measure=tot))
+
+
+def run_sel(tp, rep, case, lines, posts):
+    """cut / intersection at the top of a csg case: the rejection loop returns the first n accepted proposals of the
+    deciding round (driver `inside` = Model insideRow; Props: insideRow_first_n + rejection_uniform)"""
+    import torch
+    node = geomgen.from_json(case["dom"])
+    if node.kind not in ("cut", "inter"):
+        return
+    prows = prows_of(case)
+    params = mk_params(tp, case["params"], prows)
+    kk = max(len(prows), 1)
+    n = case["n_small"]
+    Proxy = build_proxy_class(tp)
+    log = []
+    from torchphysics.problem.domains.domainoperations.cut import CutDomain
+    from torchphysics.problem.domains.domainoperations.intersection import IntersectionDomain
+    a, b = Proxy(node.kids[0].to_tp(tp), log, "A"), Proxy(node.kids[1].to_tp(tp), log, "B")
+    dom = CutDomain(a, b) if node.kind == "cut" else IntersectionDomain(a, b)
+    torch.manual_seed(case["seed"] + 2)
+    res = common.call_with_timeout(TIMEOUT, lambda: dom.sample_random_uniform(n=n, params=params))
+    out = res.as_tensor
+    invert = node.kind == "cut"
+    rounds, i = [], 0
+    while i + 1 < len(log):
+        x, y = log[i], log[i + 1]
+        if x[0] == "A" and x[1] == "rand" and y[0] == "B" and y[1] == "contains" and len(y[3]) == len(x[3]):
+            rounds.append(dict(n=x[2], pts=x[3], ok=[bool(v) != invert for v in y[3].tolist()]))
+            i += 2
+        else:
+            break
+    if i != len(log) or not rounds or len(out) != n * kk:
+        rep.count("sel:not-applicable")
+        return
+    subs, pos = [], 0
+    for _ in range(kk):
+        cnt = 0
+        while pos + cnt < len(rounds):
+            cnt += 1
+            if sum(rounds[pos + cnt - 1]["ok"]) >= n:
+                break
+        subs.append(rounds[pos:pos + cnt]); pos += cnt
+    if pos != len(rounds):
+        rep.disagree("rejection loop: a parameter row keeps proposing after a round with >= n accepted proposals", inp_of(case), len(rounds), pos)
+        return
+    for r, sub in enumerate(subs):
+        lines.append(f"inside {n} {len(sub) + 2} " + common.lst(sub, lambda rd: common.lst(rd["ok"], common.q)))
+
+        def post(reply, sub=sub, r=r):
+            if reply.startswith("err") or reply.startswith("bad-op"):
+                rep.disagree("drivers/C11.lean inside: model gives no result", inp_of(case), None, reply)
+                return
+            rq, idx = reply.split("|")
+            if [int(t) for t in rq.split()] != [rd["n"] for rd in sub]:
+                rep.disagree("rejection loop: requested proposal counts (n, then req^2/valid + 1 resp. 5 req)", dict(inp_of(case), parameter_row=r),
+                             [rd["n"] for rd in sub], rq)
+                return
+            exp = [sub[int(t.split(":")[0])]["pts"][int(t.split(":")[1])] for t in idx.split()]
+            exp = torch.stack(exp) if exp else torch.zeros((0, out.shape[1]))
+            got = out[r * n:(r + 1) * n]
+            if exp.shape != got.shape or not torch.equal(exp, got):
+                rep.disagree("rejection loop: the output is the first n accepted proposals of the deciding round, in proposal order",
+                             dict(inp_of(case), parameter_row=r), got.tolist()[:5], exp.tolist()[:5])
+            else:
+                rep.count("sel:first-n-accepted-agrees")
+                rep.traces_validated += 1
+        posts.append(post)
 
 
 def run_union(tp, rep, case, lines, posts):
@@ -1465,14 +1542,16 @@ def run(ctx, rep, cases=None):
                 "(kind, expression, parameter rows, sizes)")
     tp = common.use_repo()
     import warnings
+    import torch
     warnings.filterwarnings("ignore")
+    torch.set_num_threads(min(4, torch.get_num_threads()))      # several checks may run side by side
     if cases is None:
         cases = make_cases(ctx)
     lines, plan = [], []       # plan: (case, callable taking its replies, number of replies)
     for cs in cases:
         node = geomgen.from_json(cs["dom"])
         kind = cs["kind"]
-        rep.count("kind:" + kind)
+        rep.count("kind:" + kind + (":" + cs["flavour"] if "flavour" in cs else ""))
         for kd in set(node.kinds()):
             rep.count("node:" + kd)
         rep.count("param-rows:%d" % len(cs["prows"]))
@@ -1491,6 +1570,7 @@ def run(ctx, rep, cases=None):
                 run_law(tp, rep, cs)
             elif kind == "csg":
                 run_csg(tp, rep, cs)
+                run_sel(tp, rep, cs, my_lines, posts)
             elif kind == "union":
                 run_union(tp, rep, cs, my_lines, posts)
             elif kind == "prod":
